@@ -48,6 +48,7 @@ var engineComponents = map[string]string{
 
 func TestVerif(t *testing.T) {
 	simkit.Main(t, propC20())
+	simkit.Main(t, propC08())
 }
 
 const (
@@ -120,6 +121,8 @@ func short(id oid.ID) string { return id.String()[:6] }
 func newEnWorld(r *simkit.R, cfg enCfg, nids int) *enWorld {
 	w := &enWorld{r: r, cfg: cfg, ep: &vEpoch{}, byPtr: map[*shard.Shard]int{}, bins: map[int][]byte{}}
 	w.k = simkit.NewKernel(r)
+	w.k.Eligible = simfs.RWEligible
+	simfs.InstallRW(w.k)
 	w.u = zz.NewUniverse(r.U32()%1000, 1+r.Intn(2), nids)
 	w.e = New(WithErrorThreshold(cfg.threshold))
 	w.install()
@@ -218,6 +221,7 @@ func (w *enWorld) uninstall() {
 	shard.VerifHookPut, shard.VerifHookExists, shard.VerifHookGet, shard.VerifHookHead = nil, nil, nil, nil
 	shard.VerifHookDelete, shard.VerifHookMarkGarbage, shard.VerifHookIsLocked = nil, nil, nil
 	simfs.OrderSeed.Store(0)
+	simfs.InstallRW(nil)
 }
 
 func (w *enWorld) shardOpts(i int) (*enShard, []shard.Option) {
@@ -359,10 +363,17 @@ func (w *enWorld) sched(h enHooks) string {
 				more = false
 			}
 		}
-		parked := w.k.Parked()
+		all := w.k.Parked()
+		parked := all[:0:0]
+		for _, t := range all {
+			// (a lock waiter is offered only after some unlock happened since it parked)
+			if simfs.RWEligible(t.Key) {
+				parked = append(parked, t)
+			}
+		}
 		canStart := pend != nil && w.k.Live() < h.maxConc
 		if len(parked) == 0 && !canStart {
-			if w.k.Live() == 0 {
+			if w.k.Live() == 0 && len(all) == 0 {
 				if pend == nil {
 					return ""
 				}
@@ -433,6 +444,31 @@ func (w *enWorld) sched(h enHooks) string {
 			w.k.Grant(parked[c], v)
 		}
 	}
+}
+
+// failHang reports a schedule after which nothing can move any more.
+func (w *enWorld) failHang(res string) {
+	var wr, rd, other []string
+	for _, t := range w.k.Parked() {
+		k := t.Key
+		if i := strings.LastIndexByte(k, '@'); i >= 0 && strings.HasPrefix(k, "rw") {
+			k = k[:i]
+		}
+		switch {
+		case strings.HasPrefix(k, "rwlock:"):
+			wr = append(wr, strings.TrimPrefix(k, "rwlock:"))
+		case strings.HasPrefix(k, "rwrlock:"):
+			rd = append(rd, strings.TrimPrefix(k, "rwrlock:"))
+		default:
+			other = append(other, k)
+		}
+	}
+	if res == "hang" && len(wr) > 0 && len(rd) > 0 {
+		w.r.Failf("hang", fmt.Sprintf("deadlock on a shard mutex: a writer waits at %s while read-lock acquisitions wait behind it at %s", strings.Join(wr, ","), strings.Join(rd, ",")),
+			"nothing can move: write-lock waiters %v, read-lock waiters %v, other parked calls %v (a goroutine that already holds the shard's read lock asks for it again behind a waiting writer)", wr, rd, other)
+		return
+	}
+	w.r.Failf("hang", "engine operations did not finish ("+res+")", "operations did not finish (%s); parked: %v %v %v", res, wr, rd, other)
 }
 
 // settle lets background activity run to quiescence with all gates passing.
@@ -506,6 +542,12 @@ func (w *enWorld) exec(op *enOp) {
 		op.err = e.SetShardMode(w.shards[op.sh].id, op.m, op.flag)
 	case "epoch":
 		e.HandleNewEpoch(w.ep.e.Add(1))
+	case "evacuate":
+		var ids []common.ID
+		for _, s := range op.srcs {
+			ids = append(ids, w.shards[s].id)
+		}
+		op.n, op.err = e.Evacuate(ctx, ids, op.flag, nil)
 	}
 }
 
